@@ -61,7 +61,7 @@ PROPS = {
                   "shrink": {"nthieves": 1, "cap": 4, "prefill": 0, "nops": 1, "sb_depth": 0, "start_pos": 0, "passers": 0}},
                  {"bin": "wsq_tso", "cls": "wsq", "sets": {"sb_depth": 0}, "flavour": "O2", "weight": 1, "chunk": 20000},
                  fj({"stealfn": 1, "reap_mask": 1}, weight=2), fj({"stealfn": 2, "reap_mask": 1}, weight=2),
-                 fj({"stealfn": 3, "reap_mask": 1}, weight=2), fj({"stealfn": 0, "yield_pm": 1000, "reap_mask": 3}, weight=2),
+                 fj({"stealfn": 3, "reap_mask": 1}, weight=2), fj({"stealfn": 4, "reap_mask": 1}, weight=2), fj({"stealfn": 0, "yield_pm": 1000, "reap_mask": 3}, weight=2),
                  fj({"reap_mask": 1}, flavour="asan", weight=1), fj({"reap_mask": 1}, flavour="fn", weight=2)],
         "relevant_probes": ["p_pop_slow", "p_pop_reset", "p_take_rollback", "p_recentre_down", "p_recentre_up", "p_steal_hit"],
         "assumptions": ["whole-library part only explores sequentially consistent interleavings; x86-TSO is covered by the wsq_tso unit harness",
